@@ -136,11 +136,13 @@ class Theory(object):
                 # h=sqrt(self.covariance[p,p])
                 h = self.parameters_errors[p]
                 mem = self.parameters[p]
-                self.parameters[p] = mem+h/2.
-                up = fun(pt)
-                self.parameters[p] = mem-h/2.
-                down = fun(pt)
-                self.parameters[p] = mem
+                try:
+                    self.parameters[p] = mem+h/2.
+                    up = fun(pt)
+                    self.parameters[p] = mem-h/2.
+                    down = fun(pt)
+                finally:
+                    self.parameters[p] = mem
                 dfdp[p] = (up-down)/h
             if hasattr(self, 'covariance') and self.covariance:
                 # Full calculation of uncertainty
